@@ -76,7 +76,9 @@ def run(ck):
     ck.tlc("js", "WalkImpl", "WalkImpl_early.cfg", label="model with an early Exit is rejected by P", expect_violation="Refines")
     ck.cov["exhaustive"] = True
     ck.cov["constants"] = {"NN": 6 if thorough else 5}
-    extra = []
+    # thorough: one tree of 2100 levels (700 nested calls; the parser's limits count grammar nesting, not tree levels), walked
+    # under the descend-everywhere policy only: validating its trace takes about three minutes
+    extra = ["-deep", 700] if thorough else []
     s = ck.drive("walk", "record", "-out", ck.path("walk.ndjson"), "-seed", ck.seed, "-harvest", 3000 if thorough else 500,
                  "-combos", 3000 if thorough else 400, *extra, timeout=3000)
     if s["programs_accepted"] < 50:
